@@ -923,7 +923,18 @@ struct Judged {
 }
 
 /// Sequential continuation after quiescence (main thread, not scheduled).
-fn judge(scn: &Scn, blob: &BlobStore, setup: &[(String, Vec<u8>, bool)], results: &[Vec<TRes>], selftest: &str) -> Judged {
+fn judge(scn: &Scn, blob: &BlobStore, setup: &[(String, Vec<u8>, bool)], stamped: &[Vec<(TRes, u64)>], selftest: &str) -> Judged {
+    // completion order of the operations (logical stamps) is part of the observable outcome
+    let mut order: Vec<(u64, String)> = vec![];
+    for (t, rs) in stamped.iter().enumerate() {
+        for (k, (_, st)) in rs.iter().enumerate() {
+            order.push((*st, format!("t{t}.{k}")));
+        }
+    }
+    order.sort();
+    let order: Vec<String> = order.into_iter().map(|x| x.1).collect();
+    let results: Vec<Vec<TRes>> = stamped.iter().map(|rs| rs.iter().map(|x| x.0.clone()).collect()).collect();
+    let results = &results[..];
     // reference: which artifacts exist and with which bytes
     let mut arts: Vec<(String, Vec<u8>)> = vec![];
     let mut deleted: BTreeSet<usize> = BTreeSet::new();
@@ -959,7 +970,7 @@ fn judge(scn: &Scn, blob: &BlobStore, setup: &[(String, Vec<u8>, bool)], results
         }
     }
     let table0 = chunk_table(blob);
-    let mut outcome = format!("{tres} chunks@quiescence={table0:?}");
+    let mut outcome = format!("{tres} completed={order:?} chunks@quiescence={table0:?}");
     let coll = scn.collector();
     let check_all = |arts: &[(String, Vec<u8>)]| -> Option<String> {
         for (id, bytes) in arts {
@@ -1037,20 +1048,20 @@ fn build(scn: &Scn, selftest: &'static str) -> Built {
         nvc::env::clock_advance_ms(AGE_MS);
     }
     let setup_ids: Arc<Vec<String>> = Arc::new(setup.iter().map(|x| x.0.clone()).collect());
-    let results: Arc<Vec<Mutex<Vec<TRes>>>> = Arc::new((0..scn.threads.len()).map(|_| Mutex::new(vec![])).collect());
+    let results: Arc<Vec<Mutex<Vec<(TRes, u64)>>>> = Arc::new((0..scn.threads.len()).map(|_| Mutex::new(vec![])).collect());
     let mut bodies: Vec<vsched::Body> = vec![];
     for (i, ops) in scn.threads.iter().enumerate() {
         let (blob, ids, results, ops) = (blob.clone(), setup_ids.clone(), results.clone(), ops.clone());
         bodies.push(Box::new(move || {
             for op in &ops {
                 let r = run_top(&blob, op, &ids);
-                results[i].lock().unwrap().push(r);
+                results[i].lock().unwrap().push((r, vsched::stamp()));
             }
         }));
     }
     let scn2 = scn.clone();
     let check = Box::new(move |_r: &vsched::RunResult| {
-        let res: Vec<Vec<TRes>> = results.iter().map(|m| m.lock().unwrap().clone()).collect();
+        let res: Vec<Vec<(TRes, u64)>> = results.iter().map(|m| m.lock().unwrap().clone()).collect();
         judge(&scn2, &blob, &setup, &res, selftest)
     });
     (bodies, check)
@@ -1273,7 +1284,7 @@ fn main() {
 
     rep.rule("S: chunk sizes x content sizes {0,1,cs-1,cs,cs+1,2cs-1,2cs,2cs+1,3cs+1,5cs+2} (thorough: 0..=5cs+2) x 2 content families x every split into 3 write() calls (empty writes included), then put of identical bytes, delete of the streamed twin, gc+full_gc; non-trivial = more than one chunk");
     rep.rule("Q: BFS over put(8 contents of sizes 1,3,4,4,5,8,8,9)/open_writer/write(5 pieces)/finish/drop_writer/delete/gc(after clock+61s)/full_gc/repair, chunk size 4, <=3 artifacts incl. one in-flight writer, <=3 writes per writer; dedup on canonical store state (artifact contents+chunk lists, chunk table with stored refcounts, writer progress); non-trivial = states where a chunk has >=2 references; every new state is probed: 4 alterations + removal per chunk per artifact, gc, full_gc, delete-one-by-one with gc, final full_gc");
-    rep.rule("E1: every schedule with <= bound preemptions (scheduling point = every parking_lot lock acquisition inside /repo, via vendored lock_api) of 2-4 real threads running put/stream/delete/gc/full_gc on overlapping content; after quiescence: read back, gc, drain as in Q");
+    rep.rule("E1: every schedule with <= bound preemptions (scheduling point = every parking_lot lock acquisition inside /repo, via vendored lock_api; bound quick/thorough = 3/4 for 2 threads, 2/3 for 3 threads, -/2 for 4 threads) of 2-4 real threads running put/stream/delete/gc/full_gc on overlapping content; after quiescence: read back, gc, drain as in Q; outcome = per-thread results + completion order + chunk table with stored refcounts");
     rep.assume("tensor_blob futures never suspend (checked: a Pending poll aborts the run), so they are driven by a single poll instead of a tokio runtime: tokio is built with parking_lot, a runtime inside a scheduled thread would add irrelevant scheduling points");
     rep.assume("chunk alteration/removal for the integrity clause is injected through BlobStore::store() (the underlying TensorStore)");
     rep.assume("a failed state is not expanded further (part Q); E1 explores each scenario with preemption bound, not all schedules");
@@ -1304,7 +1315,7 @@ fn main() {
     }
 
     if parts.contains('Q') {
-        let depth = args.flag("depth").and_then(|d| d.parse().ok()).unwrap_or(if thorough { 6 } else { 5 });
+        let depth = args.flag("depth").and_then(|d| d.parse().ok()).unwrap_or(if thorough { 8 } else { 6 });
         let q = part_q(&mut rep, depth, selftest);
         rep.part(
             "Q",
